@@ -11,6 +11,7 @@ import (
 	"sort"
 	"strings"
 
+	"github.com/mk6i/mkdb/sql"
 	"github.com/mk6i/mkdb/storage"
 	"verif/lib"
 )
@@ -795,6 +796,33 @@ func newQWorld(c *lib.Ctx, tables []*qTable) *qWorld {
 			panic(lib.HarnessError{Msg: "cannot create table " + t.name})
 		}
 		for _, r := range t.rows {
+			direct := func() {
+				// the grammar has no negative literals: supply the row as direct statement values
+				var cn []string
+				var vs []any
+				for i, v := range r {
+					if v != nil {
+						cn = append(cn, t.cols[i].Name)
+						vs = append(vs, v)
+					}
+				}
+				q := sql.InsertStatement{TableName: t.name, InsertColumnsAndSource: sql.InsertColumnsAndSource{
+					InsertColumnList: sql.InsertColumnList{ColumnNames: cn},
+					QueryExpression:  sql.TableValueConstructor{TableValueConstructorList: []sql.RowValueConstructor{{RowValueConstructorList: vs}}}}}
+				if err := guard(func() error { _, e := EvaluateInsert(q, w.sess.RelationService); return e }); err != nil {
+					panic(lib.HarnessError{Msg: "direct insert: " + err.Error()})
+				}
+			}
+			negative := false
+			for _, v := range r {
+				if n, ok := v.(int64); ok && n < 0 {
+					negative = true
+				}
+			}
+			if negative {
+				direct()
+				continue
+			}
 			var cols, vals []string
 			for i, v := range r {
 				if v == nil {
@@ -805,7 +833,10 @@ func newQWorld(c *lib.Ctx, tables []*qTable) *qWorld {
 			}
 			q := fmt.Sprintf("INSERT INTO %s (%s) VALUES (%s)", t.name, strings.Join(cols, ", "), strings.Join(vals, ", "))
 			if err := w.exec(q); err != nil {
-				panic(lib.HarnessError{Msg: q + ": " + err.Error()})
+				// the table must exist for the SELECTs under test whatever the front end does
+				// with this INSERT: supply the row directly (INSERT text is C08/C10's subject)
+				c.Tag("setup-insert-text-rejected")
+				direct()
 			}
 		}
 	}
